@@ -4,8 +4,15 @@ from .props import Prop, klass, spec_field, REGISTRY
 from . import gen_img, gen_walk
 from .pe import simple_pe
 
-HIST_OPS = ["next", "back", "nth:0", "nth:1", "nth:2", "nth:5", "len", "hint", "count", "clone", "nth:0xffffffffffffffff", "nth:0x7fffffffffffffff"]
-SOURCES = ["imports", "debug", "rich", "relocs", "pogo", "exports", "exp_names", "exp_indices", "res_all", "res_named", "res_id", "iat", "exc", "sections", "strings", "wimports", "wdebug"]
+HIST_OPS = ["next", "back", "nth:0", "nth:1", "nth:2", "nth:5", "len", "hint", "count", "clone", "fork", "sw", "sw", "nth:0xffffffffffffffff", "nth:0x7fffffffffffffff"]
+SOURCES = ["imports", "imports_into", "int@0", "int@1", "desc_iat@0", "debug", "debug_into", "rich", "relocs", "pogo", "pogo_into", "exports", "exp_names", "exp_indices",
+           "res_all", "res_named", "res_id", "res_all@0", "res_all@1", "res_id@0.0", "iat", "exc", "sections", "sections_into", "strings"]
+# the iterators the format-agnostic wrappers hand out (k = wf | wv): each runs beside the iterator of the view inside the wrapper
+WSOURCES = ["wimports", "wimports_into", "wdebug", "wdebug_into", "wiat", "wint@0", "wint@1", "wdesc_iat@0", "wexports", "wexp_names", "wexp_indices"]
+# two live copies, calls interleaved (each copy must behave like its own deque)
+FORK_HISTORIES = ["fork,next,sw,next,sw,next,sw,next", "next,fork,next,next,sw,hint,next,sw,hint,count", "fork,nth:1,sw,next,sw,next,sw,nth:0,hint",
+                  "next,fork,back,sw,back,len,sw,len,next,sw,next", "fork,fork,next,sw,nth:2,sw,count,sw,hint,next", "fork,sw,clone,next,sw,next,len,sw,len",
+                  "nth:0,fork,sw,nth:5,sw,next,hint,sw,hint,next", "fork,count,sw,count,next,sw,next,next,sw,back,hint"]
 
 
 def histories(rng, n):
@@ -16,28 +23,286 @@ def histories(rng, n):
         for b in core:
             for c in core:
                 out.append(",".join([a, b, c, "next", "back", "next"]))
+    out += FORK_HISTORIES
     for _ in range(n):
         k = rng.choice([1, 2, 4, 8, 16])
         out.append(",".join(rng.choice(HIST_OPS) for _ in range(k)))
     return out
 
 
+# ---- images with sequences of controlled length (0..8), built with the module generators' own builders
+
+def _kinds(bits, data, view):
+    """(buffer, specific kind, wrapper kind) of the file and of the mapped view"""
+    out = [(data, "f%d" % bits, "wf")]
+    if view is not None:
+        out.append((view, "v%d" % bits, "wv"))
+    return out
+
+
+def _img_exports(rng, bits, n):
+    from . import gen_exports as G
+    d = G.ExpDir()
+    d.fns = [("fwd", b"k.f%d" % i) if i % 4 == 3 else 0x1000 + 0x10 * i for i in range(n)]
+    m = rng.choice([0, n // 2, n, n]) if n else 0
+    d.names = [(b"Name%02d" % i, rng.randrange(n)) for i in range(m)]
+    b = G.build_image(rng, d, bits)
+    want = {"exports": n, "exp_names": m, "exp_indices": m, "wexports": n, "wexp_names": m, "wexp_indices": m}
+    return b.data, b.view, want, ["exports %s dump"]
+
+
+def _img_imports(rng, bits, n):
+    from . import gen_imports as G
+    dlls = []
+    for i in range(n):
+        imps = [("o", 1 + j) if (i + j) % 3 == 0 else ("n", j, b"Fn%d_%d" % (i, j)) for j in range((i * 3 + n) % 9)]
+        dlls.append(G.Dll(b"lib%d.dll" % i, imps, has_oft=True))
+    order = rng.choice(["sitd", "sidt", "stid"])
+    blob, info = G.lay_out(G.rng_clone(rng), bits, 0x1000, dlls, order=order, pad_front=8)
+    pe, va = G.base_pe(rng, bits, len(blob))
+    blob, info = G.lay_out(rng, bits, va, dlls, order=order, pad_front=8)
+    sec = pe.sections[-1]
+    sec.rs, sec.data, sec.vs = len(blob), bytes(blob), max(len(blob), 1)
+    pe.dirs[1] = (va + info["desc_off"], 20 * (n + 1))
+    pe.dirs[12] = (va + info["iat_off"], info["iat_size"])
+    data = pe.build()
+    want = {"imports": n, "imports_into": n, "wimports": n, "wimports_into": n, "iat": info["iat_size"] // (bits // 8), "wiat": info["iat_size"] // (bits // 8)}
+    for i, d in enumerate(dlls[:2]):
+        for s in ("int@%d", "wint@%d", "desc_iat@%d", "wdesc_iat@%d"):
+            want[s % i] = len(d.imports)
+    return data, gen_img.load_view(pe, data), want, ["imports %s dump", "iat %s dump"]
+
+
+def _img_dirs(rng, bits, n):
+    """debug directory with n entries (the first POGO entry holds n records), exception directory with n functions"""
+    import struct
+    from . import gen_dirs as G
+    L = G.Layout(rng, bits)
+    ents, first_pogo = [], True
+    for i in range(n):
+        if i == 1 or (n == 1):
+            # POGO data: signature, then (rva, size, name padded to dwords) records
+            blob = b"LTCG" + b"".join(struct.pack("<II", 0x1000 + 16 * j, 16) + G.pad4(b".text$%d" % j + b"\0") for j in range(n if first_pogo else 1))
+            ty, first_pogo = 13, False
+        elif i % 3 == 0:
+            ty, blob = 2, G.cv_rsds(rng, b"a%d.pdb" % i)
+        else:
+            ty, blob = rng.choice([0, 1, 9, 16]), G.rand_bytes(rng, 8)
+        pos = L.rdata.alloc(blob, 4)
+        ents.append(struct.pack("<IIHHIIII", 0, 0x5F000000 + i, 1, 0, ty, len(blob), L.rdata.rva(pos), L.rdata.ptr(pos)))
+    table = b"".join(ents)
+    pos = L.rdata.alloc(table + bytes(28), 4)
+    L.pe.dirs[G.DIR_DEBUG] = (L.rdata.rva(pos), len(table))
+    recs = []
+    for i in range(n):
+        uw = bytes([1, 2, 1, 0]) + b"\x02\x32" + bytes(2)
+        upos = L.rdata.alloc(uw, 4)
+        recs.append(struct.pack("<III", L.text.va + 16 * i, L.text.va + 16 * i + 8, L.rdata.rva(upos)))
+    pos = L.rdata.alloc(b"".join(recs) + bytes(12), 4)
+    L.pe.dirs[G.DIR_EXCEPTION] = (L.rdata.rva(pos), 12 * n)
+    data = L.build()
+    want = {"debug": n, "debug_into": n, "wdebug": n, "wdebug_into": n, "exc": n}
+    if n >= 1:
+        want["pogo"] = want["pogo_into"] = n
+    return data, gen_img.load_view(L.pe, data), want, ["debug %s dump", "exc %s dump"]
+
+
+def _img_pogo_rand(rng, bits, n):
+    """n debug entries, all POGO, with the record shapes of gen_dirs.pogo_blob (cut-off records, unterminated last name, a size that is
+    not a multiple of 4): how many items the first one yields is the decoder's business (no expected length; the dump gives the items)"""
+    import struct
+    from . import gen_dirs as G
+    L = G.Layout(rng, bits)
+    ents = []
+    for i in range(n):
+        blob = G.pogo_blob(rng)
+        pos = L.rdata.alloc(blob, 4)
+        if pos is None:
+            break
+        ents.append(struct.pack("<IIHHIIII", 0, 0x5F000000 + i, 1, 0, 13, len(blob), L.rdata.rva(pos), L.rdata.ptr(pos)))
+    table = b"".join(ents)
+    pos = L.rdata.alloc(table + bytes(28), 4)
+    L.pe.dirs[G.DIR_DEBUG] = (L.rdata.rva(pos), len(table))
+    data = L.build()
+    return data, gen_img.load_view(L.pe, data), {"debug": len(ents), "wdebug": len(ents), "pogo": None, "pogo_into": None}, ["debug %s dump"]
+
+
+def _img_res(rng, bits, n):
+    """root with n entries (named ones first); child i is a directory with (i + n) % 9 entries, each a directory with one data leaf"""
+    from . import gen_res as G
+    nn = rng.randrange(0, n + 1)
+    kids = []
+    for i in range(n):
+        c = (i + n) % 9
+        sub = G.RDir([(j + 1, G.RDir([(0x409, G.RData(b"d%d.%d" % (i, j), 0))], 0)) for j in range(c)], 0)
+        kids.append((G.utf16("N%02d" % i) if i < nn else 100 + i, sub))
+    t = G.RDir(kids, nn)
+    sec = G.encode_canonical(t, 0x2000)
+    pe = G.pe_with_rsrc(rng, sec, bits, 0x2000)
+    data = pe.build()
+    want = {"res_all": n, "res_named": nn, "res_id": n - nn}
+    for i in range(min(n, 2)):
+        want["res_all@%d" % i] = (i + n) % 9
+    if n and n % 9:
+        want["res_id@0.0"] = 1
+    return data, gen_img.load_view(pe, data), want, []
+
+
+def _img_rich(rng, bits, n):
+    from . import gen_rich as G
+    from .pe import PE, Section
+    pe = PE(bits)
+    st = G.mk_stub(rng, rng.choice(G.STUB_LENS[:6]))
+    recs = G.mk_recs(rng, n)
+    ws = G.header(G.checksum(st, recs), recs)
+    pe.dos_stub = st[64:] + G.words(ws)
+    pe.e_lfanew = 64 + len(pe.dos_stub)
+    hdr = (pe.e_lfanew + 24 + pe.opt_size() + 8 * 16 + 40 + 0x1FF) // 0x200 * 0x200
+    pe.sections = [Section(b".text", va=0x1000, vs=0x200, prd=hdr, rs=0x200, data=bytes(0x200))]
+    data = bytearray(pe.build())
+    data[2:60] = st[2:60]
+    data = bytes(data)
+    return data, gen_img.load_view(pe, data), {"rich": n}, ["rich %s"]
+
+
+def _img_relocs(rng, bits, n):
+    """n relocation blocks of 0..4 entries each (sizes dword aligned)"""
+    import struct
+    from .pe import PE, Section
+    blob = b""
+    for i in range(n):
+        k = 2 * ((i + n) % 3)
+        blob += struct.pack("<II", 0x1000 * (i + 1), 8 + 2 * k) + b"".join(struct.pack("<H", (3 << 12) | (8 * j)) for j in range(k))
+    pe = PE(bits)
+    raw = max(0x200, (len(blob) + 0x1FF) // 0x200 * 0x200)
+    pe.sections = [Section(b".text", va=0x1000, vs=0x200, prd=0x200, rs=0x200, data=bytes(0x200)),
+                   Section(b".reloc", va=0x2000, vs=max(len(blob), 1), prd=0x400, rs=raw, chars=0x42000040, data=blob + bytes(raw - len(blob)))]
+    pe.dirs[5] = (0x2000, len(blob))
+    data = pe.build()
+    return data, gen_img.load_view(pe, data), {"relocs": n}, ["relocs %s dump"]
+
+
+def _img_sections(rng, bits, n):
+    pe = simple_pe(rng, bits, nsec=n)
+    pe.num_rva = 16
+    data = pe.build()
+    return data, gen_img.load_view(pe, data), {"sections": n, "sections_into": n}, []
+
+
+BUILDERS = [_img_exports, _img_imports, _img_dirs, _img_pogo_rand, _img_res, _img_rich, _img_relocs, _img_sections]
+
+
+def gen_c18_built(rng, tier):
+    """`iter` on images built by the module generators' builders: every sequence length 0..8, PE32 and PE32+, file and mapped view,
+    through the format-specific constructor, through the wrapper unwrapped (specific sources on wf / wv) and through the wrapper's
+    own iterators (`w…` sources); the modules' dump operations on the same image give the expected item lists"""
+    cases = []
+    nh = 2 if tier == "quick" else 12
+    hs = histories(rng, 150 if tier == "quick" else 3000)
+    flip = rng.randrange(2)
+    for build in BUILDERS:
+        for n in range(9):
+            for bits in ((32, 64) if tier != "quick" else ((32, 64)[(n + flip) % 2],)):
+                data, view, want, dumps = build(rng, bits, n)
+                for buf, ks, kw in _kinds(bits, data, view):
+                    case = [gen_img.img_line(rng, buf, rng.choice([0, 0, 8]), "e"), "from_bytes " + ks, "from_bytes " + kw]
+                    for k in (ks, kw):
+                        case += [d % k for d in dumps]
+                    for src in sorted(want):
+                        for k in ((kw,) if src.startswith("w") else (ks, kw)):
+                            for h in rng.sample(hs, nh) + [rng.choice(FORK_HISTORIES)]:
+                                case.append("iter %s %s %s%s" % (k, src, h, " want_n=%d" % want[src] if want[src] is not None else ""))
+                    cases.append(case)
+    return cases
+
+
 def gen_c18(rng, tier):
     cases = []
     files = [(n, d) for n, d in gen_img.corpus_files() + gen_walk.pocs() if gen_walk.bits_of(d)]
-    nh = 6 if tier == "quick" else 60
+    nh = 4 if tier == "quick" else 40
     hs = histories(rng, 200 if tier == "quick" else 4000)
     # every image that has at least one of the directories; the harness answers `err Null` otherwise
     pick = files if tier != "quick" else [f for f in files if f[0].endswith(".dll")] + rng.sample(files, 40)
     for name, data in pick:
         b = gen_walk.bits_of(data)
         case = [gen_img.img_line(rng, data, 0, "e")]
-        for src in SOURCES:
-            k = ("wf" if src.startswith("w") else "f%d" % b)
-            for h in rng.sample(hs, nh):
-                case.append("iter %s %s %s" % (k, src, h))
+        if name.endswith(".dll"):
+            # the expected item lists of the demo images: what the modules' dump operations report
+            for k in ("f%d" % b, "wf"):
+                case += [d % k for d in ("imports %s dump", "iat %s dump", "debug %s dump", "exports %s dump", "rich %s", "relocs %s dump", "exc %s dump")]
+        for src in SOURCES + WSOURCES:
+            ks = ("wf",) if src.startswith("w") else (("f%d" % b, "wf") if name.endswith(".dll") else ("f%d" % b,))
+            for k in ks:
+                for h in rng.sample(hs, nh if not src.startswith("w") else max(2, nh // 2)):
+                    case.append("iter %s %s %s" % (k, src, h))
         cases.append(case)
     return cases
+
+
+def _fnv(text):
+    h = 0xcbf29ce484222325
+    for x in text.encode("utf-8"):
+        h = ((h ^ x) * 0x100000001b3) & 0xFFFFFFFFFFFFFFFF
+    return "%016x" % h
+
+
+def _bracket(ans, key):
+    """the `;`/`,`/`/`-separated text of `key=[…]` in a dump answer, None when absent"""
+    m = re.search(r"(?:^|[ ;,])%s=\[([^\]]*)\]" % re.escape(key), ans)
+    return m.group(1) if m else None
+
+
+def dump_items(src, dumps):
+    """-> (list of canonical items | None when the dump does not determine them, dump family used)
+    `dumps`: the implementation's answers of the dump operations of the same view kind, by family"""
+    base = src.split("@")[0].lstrip("w") if src.startswith("w") else src.split("@")[0]
+    arg = src.split("@")[1] if "@" in src else ""
+    def split(t, sep):
+        return [] if t == "" else t.split(sep)
+    if base in ("imports", "imports_into", "int", "desc_iat"):
+        a = dumps.get("imports")
+        if not a or not a.startswith("ok "):
+            return None
+        descs = re.findall(r"\{d=([^,]+),oft=\d+,ft=\d+,name=[^,]*,int=(\[[^\]]*\]|![A-Za-z]+),iat=(\[[^\]]*\]|![A-Za-z]+)\}", a)
+        if base.startswith("imports"):
+            return [d[0] for d in descs]
+        i = int(arg or "0", 0)
+        if i >= len(descs):
+            return None
+        t = descs[i][1 if base == "int" else 2]
+        return split(t[1:-1], "/") if t.startswith("[") else None
+    if base == "iat":
+        a = dumps.get("iat")
+        m = re.match(r"ok img=[^;]*;n=\d+;\[(.*)\]$", a or "")
+        return split(m.group(1), "/") if m else None
+    if base in ("debug", "debug_into"):
+        a = dumps.get("debug")
+        return re.findall(r"\{hdr=(\S+) ", a) if a and a.startswith("ok ") else None
+    if base in ("pogo", "pogo_into"):
+        a = dumps.get("debug")
+        m = re.search(r"entry=pgo\(img=[^,]*,\[([^\]]*)\]\)", a or "")
+        return split(m.group(1), ",") if m else None
+    if base in ("exports", "exp_names", "exp_indices"):
+        a = dumps.get("exports")
+        if not a or " by=ok " not in a:
+            return None
+        t = _bracket(a, {"exports": "iter", "exp_names": "iter_names", "exp_indices": "iter_name_indices"}[base])
+        return split(t, ";") if t is not None else None
+    if base == "rich":
+        a = dumps.get("rich")
+        t = _bracket(a, "recs") if a and a.startswith("ok ") else None
+        return split(t, ",") if t is not None else None
+    if base == "relocs":
+        a = dumps.get("relocs")
+        t = _bracket(a, "blocks") if a and a.startswith("ok ") else None
+        return split(t, ",") if t is not None else None
+    if base == "exc":
+        a = dumps.get("exc")
+        return re.findall(r"\{rf=(\S+) ", a) if a and a.startswith("ok ") else None
+    return None
+
+
+ITER_FLAGS = ("deque_same", "fused", "imglen_same", "layout_same", "twin_same", "want_n_same")
 
 
 class C18(Prop):
@@ -49,7 +314,7 @@ class C18(Prop):
     @property
     def gens(self):
         from .props_cross import _sample
-        out = [gen_c18]
+        out = [gen_c18, gen_c18_built]
         # the model-backed streams of the module slices whose answers are produced by iterating:
         # Rich record histories, relocation blocks, strings, and the `dump` operations of the debug
         # (POGO records), import and export directories — there the items themselves are checked
@@ -62,19 +327,63 @@ class C18(Prop):
                 out += [g if pid in ("C14", "C20") or (pid == "C16" and "iter" in g.__name__) else _sample(g, 150, 3000) for g in p.gens]
         return out
 
+    def begin_case(self, case):
+        self.dumps = {}          # (family, kind) -> the implementation's dump answer on the current image
+        if not hasattr(self, "_stats"):
+            self._stats = {"iter_ok": 0, "items_compared_with_dump": 0, "wrapper_twin_histories": 0, "fork_histories": 0, "image_len_histories": 0,
+                           "layout_histories": 0, "expected_length_histories": 0}
+
+    def stats(self):
+        """how many `iter` answers each direct oracle judged"""
+        return dict(getattr(self, "_stats", {}))
+
+    DUMP_OPS = {("imports", "dump"): "imports", ("iat", "dump"): "iat", ("debug", "dump"): "debug", ("exports", "dump"): "exports",
+                ("relocs", "dump"): "relocs", ("exc", "dump"): "exc"}
+
+    def iter_oracle(self, op, impl):
+        """the in-harness flags, and the iterator's items against the item list of the module's dump operation on the same view"""
+        st = self._stats
+        st["iter_ok"] += 1
+        for key, tok in (("wrapper_twin_histories", " twin_same="), ("image_len_histories", " imglen_same="), ("layout_histories", " layout_same="),
+                         ("expected_length_histories", " want_n_same=")):
+            st[key] += tok in impl
+        st["fork_histories"] += " copies=1 " not in impl
+        bad = [f for f in ITER_FLAGS if (" %s=0" % f) in impl]
+        if bad:
+            return "iterator history: %s — %s" % (", ".join(bad), impl[:400])
+        w = op.split(" ")
+        m = re.search(r" ids=(\S+) results=", impl)
+        if m and len(w) >= 3:
+            dumps = {fam: a for (fam, k), a in getattr(self, "dumps", {}).items() if k == w[1]}
+            want = dump_items(w[2], dumps)
+            if want is not None:
+                st["items_compared_with_dump"] += 1
+                text = ";".join(want) or "-"
+                got = m.group(1)
+                if got != (text if not got.startswith("#") else "#" + _fnv(text)):
+                    return "the iterator's items differ from the items the module's dump operation reports on the same view: iter=%s dump=%s" % (got[:300], text[:300])
+        return None
+
     def judge(self, op, impl, model, spec):
-        if op.startswith("iter "):
+        w = op.split(" ")
+        if w[0] == "iter":
             k = klass(impl)
             if k in ("panic", "crash", "timeout"):
                 return {"kind": "spec", "text": "iterator history made the implementation %s: %s" % (k, impl[:200])}
-            if k == "ok" and ("deque_same=0" in impl or "fused=0" in impl):
-                return {"kind": "spec", "text": "iterator disagrees with the deque of its items / is not fused: %s" % impl[:300]}
+            if k == "ok":
+                r = self.iter_oracle(op, impl)
+                if r:
+                    return {"kind": "spec", "text": r}
+            if not self.agree(op, impl, model):
+                return {"kind": "model", "text": "impl=%s model=%s" % (impl[:300], model[:300]), "hyp": None}
             return None
+        if len(w) >= 2:
+            fam = "rich" if (w[0] == "rich" and len(w) == 2) else self.DUMP_OPS.get((w[0], w[2] if len(w) > 2 else ""))
+            if fam and hasattr(self, "dumps"):
+                self.dumps[(fam, w[1])] = impl
         return Prop.judge(self, op, impl, model, spec)
 
     def oracle(self, op, impl, model, spec):
-        if "deque_same=0" in impl or "fused=0" in impl:
-            return "iterator disagrees with the deque of its items / is not fused: %s" % impl[:300]
         return None
 
     def nontrivial(self, op, impl):
@@ -82,7 +391,8 @@ class C18(Prop):
         return bool(m and int(m.group(1)) > 0) or (impl.startswith("ok") and not op.startswith("iter "))
 
 
-WRAP_FAMS = ("slice", "secbytes", "byrva", "byname", "hdrw", "derva", "derva_copy", "derva_into", "derva_slice", "derva_slice_s", "derva_cstr", "jsonsub", "relocs", "exports", "export", "imports", "iat", "rich", "res", "debug", "tls", "loadcfg", "exc", "security", "scan", "finds", "pat_exec")
+WRAP_FAMS = ("slice", "secbytes", "byrva", "byname", "hdrw", "derva", "derva_copy", "derva_into", "derva_slice", "derva_slice_s", "derva_cstr", "jsonsub", "relocs", "exports", "export", "imports", "iat", "rich", "res", "debug", "tls", "loadcfg", "exc", "security", "scan", "finds", "pat_exec",
+             "walk", "hdrw2", "slice_bytes", "derva_slice_f")
 
 
 def gen_c19(rng, tier):
@@ -116,7 +426,8 @@ def gen_c19(rng, tier):
         for mode, buf in (("f", data), ("v", view if view is not None else data)):
             ks, kw = "%s%d" % (mode, bits), "w" + mode
             case = [gen_img.img_line(rng, buf), "from_bytes " + kw, "from_bytes " + ks, "from_bytes %s%d" % (mode, 96 - bits)]
-            ops = ["hdrw %s", "jsonsub %s", "json %s", "relocs %s dump"] + C19.json_ops()
+            # (`walk`: the whole wrapper API as one item stream; `rich` / `exc`: through `Wrap::rich_structure()` / `Wrap::exception()`)
+            ops = ["hdrw %s", "jsonsub %s", "json %s", "relocs %s dump", "walk %s", "rich %s", "exc %s dump", "exc %s lookup 0x1010", "hdrw2 %s"] + C19.json_ops()
             rvas = [0, 1, 0x1000, 0x1004, 0x2000, rng.randrange(0, 0x4000)] + ([(s.va + rng.randrange(0, max(s.rs, 1))) & 0xFFFFFFFF for s in pe.sections] if pe else [rng.randrange(0, max(len(buf), 1)) for _ in range(4)])
             for r in rvas:
                 ops += ["slice %%s 0x%x %d %d" % (r, rng.choice([0, 1, 8]), rng.choice([1, 2, 4])), "derva_copy %%s u32 0x%x" % r, "derva_cstr %%s 0x%x" % r,
@@ -168,7 +479,7 @@ class C19(Prop):
     named_errors = set()                  # error kinds: wrapper vs specific API are compared with each other exactly
     pid = "C19"
     title = "wrappers and JSON"
-    thm_modules = ["PeliteModel.Thm.C19", "PeliteModel.Thm.C19Wrap", "PeliteModel.Thm.C19Json", "PeliteModel.Thm.ImageLayout"]
+    thm_modules = ["PeliteModel.Thm.C19", "PeliteModel.Thm.C19Wrap", "PeliteModel.Thm.C19Json", "PeliteModel.Thm.C19Text", "PeliteModel.Thm.ImageLayout", "PeliteModel.Thm.C19Layout"]
     # top-level members of the serialized document that Model/JsonDirs.lean models whole:
     # `jsonsub <k> <field>` prints the member as canonical text on both sides (harness: read back from the
     # real serde_json text, order and duplicate keys kept), `jsontext <k> <field>` its exact printed bytes
@@ -192,47 +503,127 @@ class C19(Prop):
                 out += [_sample(g, 120, 2500) for g in p.gens]
         return out
 
+    def _reset(self, img_line):
+        """a new current image: nothing answered on the previous one is comparable any more"""
+        self.seen = {}            # (mode, family, arguments) -> {full kind (with @base): projected answer}
+        self.ctor = {}            # kind -> `from_bytes` answer
+        self.magic = None         # 32 / 64: what the optional-header magic of the image says (None: unreadable / neither)
+        if img_line:
+            w = img_line.split(" ")
+            try:
+                self.magic = gen_walk.bits_of(bytes.fromhex(w[3]) if len(w) > 3 and w[3] != "-" else b"")
+            except ValueError:
+                self.magic = None
+
     def begin_case(self, case):
-        self.seen = {}
-        self.ctor = {}
+        self.lines = iter(case)
+        self._reset(None)
+        if not hasattr(self, "_stats"):
+            self._stats = {"wrapper_vs_specific_compared": 0, "wrapper_vs_specific_skipped_selection_unknown": 0, "walk_digests_compared": 0,
+                           "from_bytes_selection_judged": 0, "from_bytes_error_kind_judged": 0, "from_bytes_magic_judged": 0}
+
+    def stats(self):
+        return dict(getattr(self, "_stats", {}))
+
+    def _sync(self, op):
+        """follow the case text: `img` lines (not judged) and the conversions replace the current image"""
+        for l in getattr(self, "lines", ()):
+            if l.startswith("img "):
+                self._reset(l)
+                continue
+            break
+
+    def _selected(self, mode):
+        """'32' / '64': the format the wrapper of this mode selected — from its own `from_bytes` answer when the case asked,
+        else from the optional-header magic of the image (`C19_wrap_is_selected_parser`)"""
+        a = self.ctor.get("w" + mode)
+        if a in ("ok 32", "ok 64"):
+            return a[3:]
+        if a is None and self.magic:
+            return str(self.magic)
+        return None
+
+    def _ctor_oracle(self, mode):
+        """`from_bytes wf|wv` against `from_bytes` of the two format-specific parsers on the same buffer (all three answers are the
+        implementation's): `C19_wrap_is_selected_parser` + `C19_wrap_error` (Thm/C19.lean) —
+        the wrapper answers what the PE32+ parser answers, except that on its `PeMagic` it answers what the PE32 parser answers;
+        and, from the image bytes: when the magic is readable the answer (acceptance AND error kind) is the one of the parser it names"""
+        w, s32, s64 = self.ctor.get("w" + mode), self.ctor.get(mode + "32"), self.ctor.get(mode + "64")
+        st = self._stats
+        if w is None:
+            return None
+        if s64 is not None:
+            if s64 != "err PeMagic":
+                st["from_bytes_selection_judged"] += 1
+                st["from_bytes_error_kind_judged"] += s64.startswith("err")
+                if klass(s64) in ("ok", "err") and klass(w) in ("ok", "err") and w != s64:
+                    return "agnostic constructor w%s answered `%s` but the PE32+ parser answered `%s` (not PeMagic): C19_wrap_error" % (mode, w, s64)
+            elif s32 is not None:
+                st["from_bytes_selection_judged"] += 1
+                st["from_bytes_error_kind_judged"] += s32.startswith("err")
+                if klass(s32) in ("ok", "err") and klass(w) in ("ok", "err") and w != s32:
+                    return "agnostic constructor w%s answered `%s` but the PE32+ parser answered PeMagic and the PE32 parser `%s`: C19_wrap_error" % (mode, w, s32)
+        if self.magic:
+            named = self.ctor.get("%s%d" % (mode, self.magic))
+            if named is not None and klass(named) in ("ok", "err") and klass(w) in ("ok", "err"):
+                st["from_bytes_magic_judged"] += 1
+                if w != named:
+                    return "the optional-header magic names PE%s: its parser answered `%s`, the agnostic constructor w%s `%s`" % (
+                        "32" if self.magic == 32 else "32+", named, mode, w)
+                if w.startswith("ok") and w != "ok %d" % self.magic:
+                    return "the agnostic constructor w%s selected %s on an image whose magic names %d" % (mode, w, self.magic)
+        return None
+
+    def _cmp_projection(self, op, impl):
+        if op.startswith("walk "):
+            m = re.search(r"witems=\d+ digest=\w+", impl)
+            return m.group(0) if m else self.project(op, impl)
+        return self.project(op, impl)
 
     def judge(self, op, impl, model, spec):
+        self._sync(op)
         w = op.split(" ")
         fam = w[0]
+        if fam in ("img_to_view", "img_to_file"):
+            if impl.startswith("ok"):
+                self._reset(None)
+            return Prop.judge(self, op, impl, model, spec)
         if fam == "json":
             if klass(impl) == "other" and not impl.startswith("noimg"):
                 return {"kind": "spec", "text": "serializing an accepted image failed or is not well formed: %s" % impl[:300]}
             if klass(impl) in ("panic", "crash", "timeout"):
                 return {"kind": "spec", "text": "serializing an accepted image: %s" % impl[:300]}
             return None
+        if fam == "walk" and impl.startswith("bad "):
+            return {"kind": "spec", "text": "a reference handed out lies outside the buffer / is misaligned, or the rendering is not well formed: %s" % impl[:300]}
         r = Prop.judge(self, op, impl, model, spec)
         if r:
             return r
-        if fam == "from_bytes" and len(w) == 2:
-            # selection: the wrapper accepts with format b iff the parser of format b accepts
-            self.ctor = getattr(self, "ctor", {})
+        if fam == "from_bytes" and len(w) == 2 and re.match(r"(w[fv]|[fv](32|64))$", w[1]):
             self.ctor[w[1]] = impl
-            for kw, kind in (("wf", "f"), ("wv", "v")):
-                a = self.ctor.get(kw)
-                if a is None:
-                    continue
-                for b in ("32", "64"):
-                    sp = self.ctor.get(kind + b)
-                    if sp is None:
-                        continue
-                    if (a == "ok " + b) != (sp == "ok " + b) and not (a.startswith("ok") and a != "ok " + b):
-                        return {"kind": "spec", "text": "agnostic constructor %s answered %s but the %s-bit parser answered %s" % (kw, a, b, sp)}
-        # wrapper vs specific API on the same image, same arguments
+            t = self._ctor_oracle(w[1][1] if w[1][0] == "w" else w[1][0])
+            if t:
+                return {"kind": "spec", "text": t}
+        # wrapper vs specific API on the same image, same arguments: the wrapper's answer is compared with the answer of the
+        # format-specific kind the wrapper SELECTED (full kind as key: f32 and f64 never share a slot; `v64@base` is its own kind)
         if len(w) >= 2 and (fam in WRAP_FAMS or fam == "jsontext"):
             k = w[1]
-            key = (fam,) + tuple(w[2:])
-            if k in ("wf", "wv") or re.match(r"[fv](32|64)$", k):
-                side = "w" if k[0] == "w" else "s"
-                kind = k[1] if k[0] == "w" else k[0]
-                slot = self.seen.setdefault((kind,) + key, {})
-                slot[side] = self.project(op, impl)
-                if "w" in slot and "s" in slot and slot["w"] != slot["s"] and not slot["s"].startswith("noimg") and not slot["w"].startswith("noimg"):
-                    return {"kind": "spec", "text": "wrapper and format-specific API disagree on the same image: wrapper=%s specific=%s" % (slot["w"][:200], slot["s"][:200])}
+            if re.match(r"(w[fv]|[fv](32|64)(@\w+)?)$", k):
+                mode = k[1] if k[0] == "w" else k[0]
+                slot = self.seen.setdefault((mode, fam) + tuple(x for x in w[2:] if not re.match(r"(exp|expiat|want|tree|want_n)=", x)), {})
+                slot[k] = self._cmp_projection(op, impl)
+                wa = slot.get("w" + mode)
+                if wa is not None:
+                    sel = self._selected(mode)
+                    if sel is None:
+                        self._stats["wrapper_vs_specific_skipped_selection_unknown"] += k[0] == "w"
+                    else:
+                        sa = slot.get(mode + sel)
+                        if sa is not None and (k == "w" + mode or k == mode + sel):
+                            self._stats["wrapper_vs_specific_compared"] += 1
+                            self._stats["walk_digests_compared"] += fam == "walk" and "digest=" in wa
+                            if wa != sa:
+                                return {"kind": "spec", "text": "wrapper and the format-specific API it selected (%s%s) disagree on the same image: wrapper=%s specific=%s" % (mode, sel, wa[:200], sa[:200])}
         return None
 
     def nontrivial(self, op, impl):
